@@ -40,6 +40,11 @@ def run(tier: str) -> int:
     from . import c05state  # noqa: PLC0415
 
     c05state.run(rep, thorough)
+    # the interpreter as a machine (PestVM.tla): TLC checks the checkpoint protocol computes the by-value semantics; the real
+    # interpreter's checkpoint events are compared with the machine's, case by case (agreement is evidence, drift is a note)
+    from . import pestvm  # noqa: PLC0415
+
+    pestvm.run(rep, C.import_pest(), thorough)
     rep.rule = (
         "grammars: r = { SETUP ~ MID ~ PROBE }, MID = each of the 11 stack terminals (alone: family stack1, complete, printed with and without redundant parentheses; in two-element sequences: family stack) "
         "in each of 13 backtracking contexts, 3 setups x 4 probes; family stackdeep: an inner construct that commits stack changes nested in an outer alternative / optional / predicate that then fails, "
